@@ -84,7 +84,7 @@ def _check(prop, tier, seed, replay, work, t0):
             sig = {"invariant": names[0], "txn": hdr["txn"], "pipe": hdr["pipe"],
                    "migrated_before": any(e["ev"] == "Mig" for e in evs[:v["line"] - j]),
                    "first_run_reported_error": bool(rets and rets[0]["err"]),
-                   "lost_without_error": bool(rets and not rets[-1]["err"] and executed != set(range(1, len(hdr["keyOf"]) + 1)))}
+                   "lost_without_error": bool(rets and not rets[-1]["err"] and executed != set(range(1, len(hdr["keysOf"]) + 1)))}
             f = vlib.known_match(prop, sig)
             if f:
                 known.append(f)
